@@ -9,7 +9,7 @@ EXPLANATION = ("Type-resolved inventories over MIR: (D1) every call resolved to 
                "write_all) must be the body of a forwarding Read/Write impl, lie inside a loop whose exit depends on the returned count, or have a receiver that cannot "
                "short-read for every instantiation reaching it (Cursor<_>/&[u8], resolved through the generic callers); (D2) in the I/O layers (asset handlers, jumbf_io, "
                "jumbf/boxes, utils/io_utils, store) a Result<_, io::Error | crate::Error> consumed by ok()/let _/unwrap_or*/is_ok must be in a table with a reason, the "
-               "accepted idiom being `expr.ok()?` inside an Option-returning lookup function. Equality of results under arbitrary chunking is not decided.")
+               "accepted idiom being `expr.ok()?` inside an Option-returning lookup function; (D3) when an io::Result is matched, the Err arm returns Err or tests io::Error::kind() first (lookup/probe functions returning Option/bool excepted). Equality of results under arbitrary chunking is not decided.")
 RULE = "obligation = one raw read/write call site / one discarded I/O Result site"
 NOSHORT = re.compile(r'^std::io::Cursor<|^&\'?\{?\w*\}? ?\[u8\]$|^&\[u8\]$')
 IO_SCOPE = re.compile(r'^sdk/src/(asset_handlers/|jumbf_io\.rs|jumbf/boxes\.rs|jumbf/boxio\.rs|utils/io_utils\.rs|store\.rs)')
@@ -96,7 +96,72 @@ def run(ctx):
                 ctx.ob('C35-D2', base, '%s -> %s' % (t['fd'].split('::')[-1], detail), 'tabled with a reason', why is not None,
                        detail=('tabled: ' + why) if why else 'I/O error of %s is discarded by %s at %s' % (t['fd'].split('::')[-1], detail, loc(t['span'])), site=loc(t['span']))
     ctx.floor('discarded I/O results in the I/O layers', nd, 20, rule='C35-D2')
+    # ---- D3 error arms of matched I/O results: the Err arm returns Err, or looks at io::Error::kind() before doing anything else
+    ni = 0
+    for name in prog.fns():
+        fn = prog.fn(name)
+        if not IO_SCOPE.search(fn.d['span']['file']):
+            continue
+        kc = set(b3 for b3, t3 in fn.calls() if t3['fd'].endswith('Error::kind'))
+        for bi, t in fn.calls():
+            d = t['dest']
+            if d['p']:
+                continue
+            ty = fn.local_ty(d['l'])
+            if not is_result_ty(ty) or 'std::io::Error' not in ty:
+                continue
+            for kind, detail, cb in discipline.consumers(fn, bi):
+                if kind != 'inspect':
+                    continue
+                sw = None
+                for b2, blk in enumerate(fn.B):
+                    tt = blk['t']
+                    if tt['k'] == 'switch' and any(o == ('discr', ('call', bi)) for o in fn.origins(tt['d'])):
+                        sw = tt
+                if sw is None:
+                    continue
+                ni += 1
+                base = re.sub(r'(_async)?(::\{closure#\d+\})*$', '', name)
+                ret = prog.fn(base).d['ret'] if prog.has(base) else fn.d['ret']
+                what = '%s matched on' % t['fd'].split('::')[-1]
+                if ret.startswith('std::option::Option<') or ret == 'bool' or ret.startswith('std::result::Result<bool,'):
+                    ctx.ob('C35-D3', base, what, 'lookup/probe function (returns Option / bool / Result<bool>): an unreadable stream means "not found"', True, site=loc(t['span']), nontrivial=False)
+                    continue
+                errt = [x for v, x in sw['ts'] if v == 1] or [sw['o']]
+                ok = err_arm_ok(fn, errt[0], kc)
+                ctx.ob('C35-D3', base, what, 'the Err arm returns Err, or tests io::Error::kind() first (only a recognised kind such as UnexpectedEof may become a normal result)', ok,
+                       detail='' if ok else 'an I/O error of %s at %s is turned into a normal result without looking at its kind' % (t['fd'].split('::')[-1], loc(t['span'])), site=loc(t['span']))
+    ctx.floor('matched I/O results in the I/O layers', ni, 6, rule='C35-D3')
     ctx.note('discard kinds: %s' % dict(kinds))
+
+
+def err_arm_ok(fn, start, kindcalls):
+    from lib import FROM_RESIDUAL
+    seen = set()
+    work = [(start, None)]
+    while work:
+        b, e = work.pop()
+        if (b, e) in seen:
+            continue
+        seen.add((b, e))
+        if b in kindcalls:
+            continue
+        blk = fn.B[b]
+        for dst, rv in blk['s']:
+            if dst['l'] == 0 and not dst['p']:
+                e = 'E' if (rv['k'] == 'agg' and rv.get('variant') == 'Err') else 'N'
+        tt = blk['t']
+        if tt['k'] == 'call' and tt['dest']['l'] == 0 and not tt['dest']['p']:
+            e = 'E' if tt['fd'] == FROM_RESIDUAL else 'N'
+        if tt['k'] == 'ret':
+            if e != 'E':
+                return False
+            continue
+        if len(seen) > 3000:
+            return False
+        for s_ in fn.succs(b):
+            work.append((s_, e))
+    return True
 
 
 def error_branch_returns(fn, cb, detail):
